@@ -77,8 +77,10 @@ EVIDENCE_NOTES = [
     "heap_chain_next_prev_inverse, heap_chain_walks.  Dropping one prev/next assignment from ModelHeap.v makes ProofsHeap.v fail "
     "(checked for node->prev = new_node in hl_insert)",
     "second tie (leaf translator): gen_get_index_eq - the C text of muggle_array_list_get_index re-translated on every run "
-    "(coq/gen/Params_C11.v) equals al_get_index for every list state and int index; an edit of the normalisation breaks this "
-    "proof obligation directly",
+    "(coq/gen/Params_C11.v) equals al_get_index for every list state and int index; the proof is a shape-independent decision "
+    "procedure (unfold, split every conditional, lia over the euclidean-division equations), so structure-only rewrites "
+    "(guard clauses, ternaries, hoisted locals, negated conditions with swapped branches, narrower unsigned arithmetic) still "
+    "prove, while a change of an accepted range or of the selected value breaks the obligation directly",
     "DESIGN.md A.3 stated free_index = alloc_index + F (mod 2^32); that is false at init (all free, both cursors equal); the "
     "proved relation is free_index = alloc_index - |live| (mod 2^32), which gives the A.3 relation modulo the capacity",
     "covered by the differential run + monitor only (not proved): that the hand-written models (array, heap-level and "
